@@ -50,6 +50,10 @@ fn read_suite(acked: &[Ev]) -> Vec<String> {
         q.push(format!("QUERY {t} LIMIT {full}"));
         q.push(format!("QUERY {t} LIMIT {less}"));
     }
+    // ordered reads: rows of the active memtable, of rotated buffers and of segments have to be merged
+    // into one order at every stage (slots 14, 15)
+    q.push("QUERY a ORDER BY k DESC".into());
+    q.push("QUERY b ORDER BY k".into());
     q
 }
 
@@ -360,6 +364,16 @@ fn judge(s: &Schedule, b: &Built, r: &JobResult) -> (Vec<Finding>, usize, BTreeS
                     }
                 }
                 out.push(Finding { schedule: s.clone(), stage: stage.to_string(), what: format!("QUERY {t} WHERE NOT k = -1 returned {gotn:?}, applied events are {want:?}"), known: k });
+            }
+            // ordered read of this type: the returned keys are in the requested order (membership is judged
+            // by the unordered reads above)
+            if let Some(repo) = step.replies.get(14 + ti) {
+                let ks: Vec<i64> = repo.rows.iter().filter_map(|row| row.get("k").and_then(|v| v.as_i64())).collect();
+                let desc = ti == 0;
+                let sorted = ks.windows(2).all(|w| if desc { w[0] >= w[1] } else { w[0] <= w[1] });
+                if !sorted {
+                    out.push(Finding { schedule: s.clone(), stage: stage.to_string(), what: format!("QUERY {t} ORDER BY k{} returned keys in the order {ks:?}", if desc { " DESC" } else { "" }), known: None });
+                }
             }
             let (full, less) = limits(want.len());
             for (slot, lim) in [(10 + 2 * ti, full), (11 + 2 * ti, less)] {
